@@ -13,6 +13,66 @@ Lemma with_lists_same s : with_lists s (verts s) (blocks s) (patches s) = s.
 Proof. destruct s; reflexivity. Qed.
 Lemma with_ops_same s : with_ops s (ops s) = s.
 Proof. destruct s; reflexivity. Qed.
+Lemma with_rank_same s : with_rank s (prank s) = s.
+Proof. destruct s; reflexivity. Qed.
+
+(** * PatchList.rank *)
+Lemma mem_in n l : mem n l = true <-> In n l.
+Proof.
+  unfold mem. rewrite existsb_exists. split.
+  - intros [x [Hx E]]. apply Nat.eqb_eq in E. subst. exact Hx.
+  - intro H. exists n. split; [exact H|apply Nat.eqb_refl].
+Qed.
+
+Lemma rank_add_mono r n m : mem m r = true -> mem m (rank_add r n) = true.
+Proof.
+  unfold rank_add. destruct (mem n r); [auto|]. intro H. apply mem_in. apply in_app_iff. left. apply mem_in. exact H.
+Qed.
+
+Lemma rank_add_in r n : mem n (rank_add r n) = true.
+Proof.
+  unfold rank_add. destruct (mem n r) eqn:E; [exact E|]. apply mem_in. apply in_app_iff. right. left. reflexivity.
+Qed.
+
+Lemma rank_add_known r n : mem n r = true -> rank_add r n = r.
+Proof. unfold rank_add. intro H. rewrite H. reflexivity. Qed.
+
+Definition rank_step (ps0 : list pat) (r : list nat) (n : nat) : list nat :=
+  if has_patch ps0 n then r else rank_add r n.
+
+Lemma rank_fold_mono ps0 ns : forall r m, mem m r = true -> mem m (fold_left (rank_step ps0) ns r) = true.
+Proof.
+  induction ns as [|n ns IH]; intros r m H; simpl; [exact H|]. apply IH. unfold rank_step.
+  destruct (has_patch ps0 n); [exact H|apply rank_add_mono; exact H].
+Qed.
+
+Lemma rank_fold_covers ps0 ns : forall r n, In n ns -> has_patch ps0 n = false ->
+  mem n (fold_left (rank_step ps0) ns r) = true.
+Proof.
+  induction ns as [|a ns IH]; intros r n Hin Hp; [destruct Hin|]. simpl. destruct Hin as [E|Hin].
+  - subst a. apply rank_fold_mono. unfold rank_step. rewrite Hp. apply rank_add_in.
+  - apply IH; assumption.
+Qed.
+
+Lemma rank_fold_fix ps0 ns : forall r,
+  (forall n, In n ns -> has_patch ps0 n = true \/ mem n r = true) -> fold_left (rank_step ps0) ns r = r.
+Proof.
+  induction ns as [|a ns IH]; intros r H; simpl; [reflexivity|].
+  assert (E : rank_step ps0 r a = r).
+  { unfold rank_step. destruct (H a (or_introl eq_refl)) as [X|X]; [rewrite X; reflexivity|].
+    destruct (has_patch ps0 a); [reflexivity|apply rank_add_known; exact X]. }
+  rewrite E. apply IH. intros n Hn. apply H. right. exact Hn.
+Qed.
+
+Lemma asm_rank_eq ps0 l r : asm_rank ps0 l r = fold_left (rank_step ps0) (flat_map (fun ko => op_names (snd ko)) l) r.
+Proof. reflexivity. Qed.
+
+(** a second pass over the same operations ranks nothing new *)
+Lemma asm_rank_idem ps0 l r : asm_rank ps0 l (asm_rank ps0 l r) = asm_rank ps0 l r.
+Proof.
+  rewrite !asm_rank_eq. apply rank_fold_fix. intros n Hn.
+  destruct (has_patch ps0 n) eqn:E; [left; reflexivity|right]. apply rank_fold_covers; assumption.
+Qed.
 
 Lemma clear_clean s : clean (clear fixed s).
 Proof. unfold clean, clear. simpl. repeat split. apply mods_are_clean. Qed.
@@ -68,18 +128,33 @@ Lemma assemble_user tb s :
   /\ dflt (assemble tb s) = dflt s /\ merged (assemble tb s) = merged s.
 Proof. unfold assemble. destruct (asm_all _ _ _ _) as [[V B] P]. simpl. auto. Qed.
 
-(** clear undoes assemble: nothing assemble creates survives, nothing else is lost *)
-Lemma clear_assemble_id tb c : clean c -> clear fixed (assemble tb c) = c.
+(** clear undoes assemble: nothing assemble creates survives, nothing else is lost; the ranks given to the
+    new names are kept (they place the patches of the next assembly) *)
+Lemma assemble_patches_rank tb c :
+  prank (assemble tb c) = asm_rank (patches c) (live_ops c) (prank c).
+Proof. unfold assemble. destruct (asm_all _ _ _ _) as [[V B] P]. reflexivity. Qed.
+
+Lemma clear_assemble_id tb c : clean c -> clear fixed (assemble tb c) = with_rank c (prank (assemble tb c)).
 Proof.
-  intros [Hv [Hb Hp]]. unfold assemble.
+  intros [Hv [Hb Hp]]. rewrite assemble_patches_rank. unfold assemble.
   destruct (asm_all tb (slaves c) (live_ops c) (verts c, blocks c, patches c)) as [[V B] P] eqn:A.
   apply asm_all_spec in A. destruct A as [_ [_ [HP _]]].
   unfold clear. simpl. rewrite clear_patches_fixed, HP, (mods_clean _ Hp).
   destruct c; simpl in *; subst; reflexivity.
 Qed.
 
+Lemma assemble_with_rank tb c :
+  assemble tb (with_rank c (prank (assemble tb c))) = assemble tb c.
+Proof.
+  rewrite assemble_patches_rank. unfold assemble. simpl.
+  change (live_ops (with_rank c (asm_rank (patches c) (live_ops c) (prank c)))) with (live_ops c).
+  change (slaves (with_rank c (asm_rank (patches c) (live_ops c) (prank c)))) with (slaves c).
+  destruct (asm_all tb (slaves c) (live_ops c) (verts c, blocks c, patches c)) as [[V B] P].
+  unfold with_rank, with_lists. simpl. rewrite asm_rank_idem. reflexivity.
+Qed.
+
 Theorem clear_assemble tb c : clean c -> assemble tb (clear fixed (assemble tb c)) = assemble tb c.
-Proof. intro H. rewrite clear_assemble_id by exact H. reflexivity. Qed.
+Proof. intro H. rewrite clear_assemble_id by exact H. apply assemble_with_rank. Qed.
 
 (** for any state at all, clear gives a clean state with the same user data and the same patch
     types and settings; so what is assembled after a clear is a first assembly *)
@@ -115,9 +190,7 @@ Proof.
 Qed.
 
 (** * delete *)
-Definition delete_op (s : st) (x : nat) : st :=
-  {| depot := depot s; ops := ops s; deleted := x :: deleted s; verts := verts s; blocks := blocks s;
-     patches := patches s; dflt := dflt s; merged := merged s |}.
+Definition delete_op (s : st) (x : nat) : st := with_user s (depot s) (x :: deleted s) (dflt s) (merged s).
 
 Lemma live_ops_delete s x :
   live_ops (delete_op s x) = filter (fun ko => negb (fst ko =? x)) (live_ops s).
@@ -421,7 +494,7 @@ Proof.
     apply (backport_ops_id V (ops c) Bn (live_ops c)); try assumption.
     intros k o Hin. apply live_ops_get. exact Hin. }
   rewrite E. destruct (assemble_user tb c) as [_ [Ho _]]. rewrite <- Ho at 1 2.
-  rewrite with_ops_same, clear_assemble_id by exact Hc. rewrite Ho. reflexivity.
+  rewrite with_ops_same, clear_assemble_id by exact Hc. rewrite assemble_with_rank, Ho. reflexivity.
 Qed.
 
 (** after a write (the gradings are set) the same holds: backport drops the gradings with the blocks *)
@@ -586,12 +659,12 @@ Theorem backport_moves tb c Vm s1 ev :
   /\ geo_blocks s1 = geo_blocks sm.
 Proof.
   intros Hc N s0 sm H.
-  assert (Hs0 : exists V P Bn, s0 = with_lists c V Bn P /\ Forall2 (built V) Bn (live_ops c)).
+  assert (Hs0 : exists V P Bn R, s0 = with_rank (with_lists c V Bn P) R /\ Forall2 (built V) Bn (live_ops c)).
   { unfold s0, assemble. destruct Hc as [Hv [Hb _]].
     destruct (asm_all tb (slaves c) (live_ops c) (verts c, blocks c, patches c)) as [[V B] P] eqn:Q.
     apply asm_all_spec in Q. destruct Q as [_ [[Bn [HB HF]] _]]. rewrite Hb in HB. simpl in HB. subst B.
-    exists V, P, Bn. auto. }
-  destruct Hs0 as [V [P [Bn [E HF]]]].
+    exists V, P, Bn. eexists. split; [reflexivity|exact HF]. }
+  destruct Hs0 as [V [P [Bn [R [E HF]]]]].
   assert (NB : NoDup (map b_src Bn)) by (rewrite (built_src _ _ _ HF); exact N).
   unfold backport in H. destruct (is_assembled sm); simpl in H; [|discriminate].
   inversion H as [[Hs1 Hev]]. clear H Hev. subst s1.
@@ -639,8 +712,7 @@ Qed.
 
 (** * deleting an operation is the same as never having added it *)
 Definition remove_op (s : st) (x : nat) : st :=
-  {| depot := filter (fun k => negb (k =? x)) (depot s); ops := ops s; deleted := deleted s; verts := verts s;
-     blocks := blocks s; patches := patches s; dflt := dflt s; merged := merged s |}.
+  with_user s (filter (fun k => negb (k =? x)) (depot s)) (deleted s) (dflt s) (merged s).
 
 Lemma live_ops_remove s x : live_ops (delete_op s x) = live_ops (remove_op s x).
 Proof.
